@@ -231,3 +231,51 @@ Fixpoint msg_get {K} (f : string) (fs : list (string * pbval K)) : option (pbval
   | [] => None
   | (n, v) :: fs' => if String.eqb n f then Some v else msg_get f fs'
   end.
+
+(* ---- reading a protobuf message object (the reader's side).  A field that was not on the wire is not in the list:
+   reading it gives the proto3 default (0, false, "", the empty message, the empty list); HasField / WhichOneof see
+   presence.  (What the wire parser makes of bytes is the model's Wire.v, tied by the correspondence check.) *)
+Section MsgRead.
+Context {K : Type} (empty : K).
+
+Definition msg_int (f : string) (m : pbval K) : Z :=
+  match msg_get f (msg_fields m) with Some (PInt z) => z | _ => 0%Z end.
+Definition msg_bool (f : string) (m : pbval K) : bool :=
+  match msg_get f (msg_fields m) with Some (PBool b) => b | _ => false end.
+Definition msg_str (f : string) (m : pbval K) : K :=
+  match msg_get f (msg_fields m) with Some (PStr s) => s | _ => empty end.
+Definition msg_sub (f ty : string) (m : pbval K) : pbval K :=
+  match msg_get f (msg_fields m) with Some (PMsg n fs) => PMsg n fs | _ => PMsg ty [] end.
+Definition msg_rep (f : string) (m : pbval K) : list (pbval K) :=
+  match msg_get f (msg_fields m) with Some (PRep l) => l | _ => [] end.
+Definition msg_has (f : string) (m : pbval K) : bool :=
+  match msg_get f (msg_fields m) with Some _ => true | None => false end.
+
+(* m.WhichOneof(group): the member of the group that is set (msg_set keeps at most one), None when none is *)
+Fixpoint which_of (group : list string) (fs : list (string * pbval K)) : option string :=
+  match fs with
+  | [] => None
+  | (n, _) :: fs' => if existsb (String.eqb n) group then Some n else which_of group fs'
+  end.
+Definition msg_which (group : list string) (m : pbval K) : option string := which_of group (msg_fields m).
+
+(* getattr(m, name) for a name WhichOneof returned: the value of that field (a string field gives the str itself) *)
+Definition msg_field (f : string) (m : pbval K) : option (pbval K) := msg_get f (msg_fields m).
+
+(* type(x): the message class name, or "str" for a string *)
+Definition pb_kind (x : pbval K) : string :=
+  match x with PMsg n _ => n | PStr _ => "str"%string | PInt _ => "int"%string | PBool _ => "bool"%string | PRep _ => "list"%string end.
+End MsgRead.
+
+(* ---- dict[str, V] as an association list (insertion order; d[k] = v replaces in place) *)
+Section Dict.
+Context {K V : Type} (eqb : K -> K -> bool).
+Fixpoint ad_find (k : K) (d : list (K * V)) : option V :=
+  match d with [] => None | (k', v) :: d' => if eqb k k' then Some v else ad_find k d' end.
+Fixpoint ad_update (k : K) (v : V) (d : list (K * V)) : list (K * V) :=
+  match d with [] => [] | (k', v') :: d' => if eqb k k' then (k', v) :: d' else (k', v') :: ad_update k v d' end.
+Definition ad_set (k : K) (v : V) (d : list (K * V)) : list (K * V) :=
+  match ad_find k d with Some _ => ad_update k v d | None => d ++ [(k, v)] end.
+Definition ad_get (k : K) (d : list (K * V)) : outcome V :=
+  match ad_find k d with Some v => Val v | None => Exn KeyError end.
+End Dict.
